@@ -28,13 +28,22 @@ STEPS = ["SumScaler", "VectorScaler", "MaxAbsScaler", "MinMaxScaler", "StandarSc
 
 def gen_case(rng, name):
     c = M.method_case(rng, name)
+    if name == "multimoora" and rng.random() < 0.6:
+        # small integers and small integer weights: exact ties inside a component ranking are common
+        n, m = rng.randint(3, 6), rng.randint(2, 4)
+        c["matrix"] = [[float(rng.randint(1, 5)) for _ in range(m)] for _ in range(n)]
+        c["weights"] = [float(rng.choice([1, 2])) for _ in range(m)]
+        c["objectives"] = [rng.choice([1, -1]) for _ in range(m)]
+        c["alternatives"] = gen.labels(rng, n, gen.LABEL_POOL_A, "A")
+        c["criteria"] = gen.labels(rng, m, gen.LABEL_POOL_C, "C")
+        c["mode"] = "int"
     n, m = len(c["matrix"]), len(c["weights"])
     pr, pc = list(range(n)), list(range(m))
     rng.shuffle(pr)
     rng.shuffle(pc)
     c["perm_r"], c["perm_c"] = pr, pc
     c["relabel"] = rng.random() < 0.6
-    c["mult"] = rng.choice([1.0, 2.0, 0.25, 8.0, 3.0, 0.7]) if name in HOMOGENEOUS else 1.0
+    c["mult"] = rng.choice([1.0, 2.0, 0.25, 8.0, 3.0, 0.7, 100.0, 1024.0, 0.001]) if name in HOMOGENEOUS else 1.0
     steps = []
     if rng.random() < 0.4 and name not in ("wsm", "wpm"):
         positive = all(x > 0 for r in c["matrix"] for x in r)
@@ -142,13 +151,20 @@ def compare(ctx, c, o1, o2, back):
     if name == "multimoora":
         rm = o1["extra"]["rank_matrix"]
         cols = list(zip(*rm))
-        comp_scores = [o1["extra"]["ratio_score"], o1["extra"]["refpoint_score"], o1["extra"]["fmf_score"]]
+        # a component tie between different rows is broken by rounding when the component is computed
+        # inexactly (the logarithmic fmf score always; ratio / reference point outside the exact regime):
+        # only those cases are skipped - an exact tie in an exactly computed component must be handled
+        # the same way in both presentations
+        exact_lin = (not c["steps"]) and c04.is_exact(c)
+        comp_scores = [(o1["extra"]["ratio_score"], exact_lin), (o1["extra"]["refpoint_score"], exact_lin),
+                       (o1["extra"]["fmf_score"], False)]
         rows = c["matrix"]
-        for sc in comp_scores:
+        for sc, exact_comp in comp_scores:
             for i in range(len(sc)):
                 for j in range(i):
-                    if rows[i] != rows[j] and abs(sc[i] - sc[j]) <= 1e-9 * max(1.0, abs(sc[i])):
-                        ctx.count("multimoora_component_tie_skipped")
+                    near = abs(sc[i] - sc[j]) <= 1e-9 * max(1.0, abs(sc[i]))
+                    if rows[i] != rows[j] and near and not (exact_comp and sc[i] == sc[j]):
+                        ctx.count("multimoora_rounding_level_component_tie_skipped")
                         return
     exact = exact_regime(c)
     if exact:
